@@ -208,3 +208,103 @@ def run_cfg(chk, module, constants, label=None, workers=16, timeout=3600, opts=N
     rp.finish()
     # a few samples
     return res, rp
+
+
+# ---------------------------------------------------------------------------
+# generic streaming replay: any emitted-line shape, caller supplies the worker
+# ---------------------------------------------------------------------------
+_H = {}
+
+
+def _ginit(header, init_fn):
+    warnings.simplefilter('ignore')
+    sv, bs4 = common.import_repo()
+    _H['sv'] = sv
+    _H['bs4'] = bs4
+    _H['header'] = header
+    if init_fn:
+        init_fn(_H)
+
+
+def _gwork(args):
+    fn, chunk = args
+    return fn(_H, chunk)
+
+
+def write_cfg(label, constants, invariants=('Emit',), extra_cfg='', spec=None, properties=()):
+    cfgdir = os.path.join('/tmp', 'verif_cfg_%d' % os.getpid())
+    os.makedirs(cfgdir, exist_ok=True)
+    cfgpath = os.path.join(cfgdir, label)
+    with open(cfgpath + '.cfg', 'w') as f:
+        if constants:
+            f.write('CONSTANTS\n')
+            for k, v in constants.items():
+                f.write('  %s = %s\n' % (k, v))
+        if spec:
+            f.write('SPECIFICATION %s\n' % spec)
+        else:
+            f.write('INIT Init\nNEXT Next\n')
+        for inv in invariants:
+            f.write('INVARIANT %s\n' % inv)
+        for pr in properties:
+            f.write('PROPERTY %s\n' % pr)
+        f.write('CHECK_DEADLOCK FALSE\n')
+        f.write(extra_cfg)
+    return cfgpath
+
+
+def rm_cfg(cfgpath):
+    try:
+        os.remove(cfgpath + '.cfg')
+        os.rmdir(os.path.dirname(cfgpath))
+    except OSError:
+        pass
+
+
+def stream(chk, module, constants, label, worker, init_fn=None, is_header=lambda v: 'doc' not in v,
+           invariants=('Emit',), procs=16, chunk=8, workers=16, timeout=3600, extra_cfg=''):
+    """Run TLC on `module`; lines for which is_header(v) holds are collected first (they must be printed
+    by ASSUMEs, i.e. before any state) and handed to every worker process; every other emitted line is a
+    case.  worker(H, chunk) -> (violations[(key, what, case)], n_impl_calls, n_nontrivial, sample)."""
+    cfgpath = write_cfg(label, constants, invariants, extra_cfg)
+    st_ = {'mp': None, 'header': [], 'buf': [], 'pending': [], 'n': 0}
+    ctx = mp.get_context('fork')
+
+    def on_line(v):
+        if is_header(v):
+            st_['header'].append(v)
+            return
+        if st_['mp'] is None:
+            st_['mp'] = ctx.Pool(procs, initializer=_ginit, initargs=(st_['header'], init_fn))
+        st_['buf'].append(v)
+        st_['n'] += 1
+        if len(st_['buf']) >= chunk:
+            st_['pending'].append(st_['mp'].apply_async(_gwork, ((worker, st_['buf']),)))
+            st_['buf'] = []
+    try:
+        res = tlc.run(module, cfg=cfgpath, workers=workers, timeout=timeout, line_cb=on_line)
+    finally:
+        rm_cfg(cfgpath)
+    if res.violation:
+        chk.violation('%s|spec|%s' % (label, res.violated_name),
+                      'design-level theorem %s violated in %s' % (res.violated_name, label),
+                      {'cfg': label, 'group': 'spec:' + str(res.violated_name), 'tlc': res.counterexample[:4000]})
+    chk.add_tlc(res, label)
+    if st_['mp'] is None:
+        chk.machinery('%s: TLC emitted no cases' % label)
+        return res
+    if st_['buf']:
+        st_['pending'].append(st_['mp'].apply_async(_gwork, ((worker, st_['buf']),)))
+    for p in st_['pending']:
+        viols, ncalls, nontriv, samp = p.get()
+        chk.count(ncalls)
+        chk.add_distinct(nontriv)
+        if samp is not None:
+            chk.sample(samp, cap=12)
+        for key, what, case in viols:
+            case.setdefault('cfg', label)
+            chk.violation('%s|%s' % (label, key), '%s %s' % (label, what), case)
+    chk.coverage['traces_validated_against_impl'] += st_['n']
+    st_['mp'].close()
+    st_['mp'].join()
+    return res
